@@ -397,6 +397,29 @@ def check(tier):
         if t in normal_set and so and so.get("outcome") == "ok" and so.get("spec"):
             dist["group_normal"] += 1
             gcases.append((tree["decls"], so["spec"]["productions"], t))
+    # (c') Equal() is what "an equal tree" rests on: it must be EXACT - two trees whose dumps differ anywhere (a position moved by one
+    #      inserted blank, a bracket one column further, a line end written CRLF) are not equal, in either direction
+    import re as _re
+    eq_reqs = []
+    for t, tree, p1 in printed_reqs[:(40 if tier == "quick" else 400)]:
+        gaps = [m.start() for m in _re.finditer(r"[ \n]", t)]
+        if not gaps:
+            continue
+        k = gaps[rng.randrange(len(gaps))]
+        eq_reqs.append((t, t[:k] + " " + t[k:]))
+        if "\n" in t.rstrip("\n"):
+            eq_reqs.append((t, t.replace("\n", "\r\n", 1)))
+    eq_reqs += [("grammar g; x = a [ b];\n", "grammar g; x = a  [b];\n"), ("grammar g; x = a | { b};\n", "grammar g; x = a |  {b};\n"),
+                ("grammar g; @left <x = a {{ b}}>;\nx = a;\n", "grammar g; @left <x = a  {{b}}>;\nx = a;\n"), ("grammar g; x =\r\n a b;\n", "grammar g; x =\n a b;\n")]
+    eq_res = C.hook_map([{"op": "ast", "text": a_, "again": b_} for a_, b_ in eq_reqs], timeout_each=20)
+    dist["equal_pairs"] = 0
+    for (a_, b_), r_ in zip(eq_reqs, eq_res):
+        if not r_ or r_.get("outcome") != "ok" or "again_tree" not in r_:
+            continue
+        dist["equal_pairs"] += 1
+        same = json.dumps(r_["tree"], sort_keys=True) == json.dumps(r_["again_tree"], sort_keys=True)
+        if bool(r_.get("equal")) != same or bool(r_.get("equal_reverse")) != same:
+            problems.append(("equal-not-exact", a_, {"other_text": b_, "dumps_identical": same, "Equal": r_.get("equal"), "Equal_reverse": r_.get("equal_reverse")}))
     kinds = set()
     for kind, t, detail in problems:
         if kind in kinds:
@@ -407,7 +430,7 @@ def check(tier):
     rep.obligation("typed tree == independent reading of the dictated parse tree: structure, names, operand order, positions (%d trees)" % dist["typed_trees"],
                    not any(p[0] in ("typed-structure", "typed-positions") for p in problems))
     rep.obligation("print -> parse again: equal structure, Equal() holds, printing is idempotent (%d round trips)" % dist["round_trips"],
-                   not any(p[0] in ("reparse-failed", "round-trip", "equal-not-reflexive", "print-not-idempotent") for p in problems))
+                   not any(p[0] in ("reparse-failed", "round-trip", "equal-not-reflexive", "equal-not-exact", "print-not-idempotent") for p in problems))
 
     # Coq: typed tree of the model == observed; observed trees normal and stable; grammar from the typed tree == spec.Parse's
     shards = [cases[i:i + 60] for i in range(0, len(cases), 60)]
